@@ -23,8 +23,13 @@ std::string op_str(const Op &o) { std::string s = kname[o.kind]; if (o.kind == R
 // construction paths of the primary array
 enum Ctor { K_PTR, K_INIT, K_SIZE, K_FILL, K_DEFAULT, K_ADOPT, NCTORS };
 const char *cname[] = {"ptr", "init", "size", "fill", "default", "adopt"};
-struct Config { int ctor, len; bool tracked; };
-std::string cfg_str(const Config &c) { return fmt("ctor=%s len=%d T=%s :", cname[c.ctor], c.len, c.tracked ? "tracked" : "int"); }
+// element types: int, a lifetime-tracked class, and a trivially copyable class whose default construction is observable (member initialisers)
+struct Cell { int id = -1; float weight = 1.5f; Cell() = default; Cell(int v) : id(v), weight(2.5f) {} };
+static_assert(std::is_trivially_copyable_v<Cell> && std::is_class_v<Cell>, "Cell");
+enum { TY_INT = 0, TY_TRACKED = 1, TY_CELL = 2 };
+const char *tname[] = {"int", "tracked", "cell"};
+struct Config { int ctor, len; int type; };
+std::string cfg_str(const Config &c) { return fmt("ctor=%s len=%d T=%s :", cname[c.ctor], c.len, tname[c.type]); }
 std::string hist_str(const Config &c, const std::vector<Op> &h, const Op *inflight = nullptr) {
     std::string s = cfg_str(c); for (auto &o : h) s += " " + op_str(o); if (inflight) s += " " + op_str(*inflight); return s;
 }
@@ -33,7 +38,7 @@ bool parse_hist(const std::string &s, Config &c, std::vector<Op> &h) {
     if (sscanf(s.c_str(), "ctor=%31s len=%d T=%31s :", cn, &len, t) != 3) return false;
     c.ctor = -1; for (int i = 0; i < NCTORS; i++) if (std::string(cn) == cname[i]) c.ctor = i;
     if (c.ctor < 0) return false;
-    c.len = len; c.tracked = std::string(t) == "tracked";
+    c.len = len; c.type = std::string(t) == "tracked" ? TY_TRACKED : std::string(t) == "cell" ? TY_CELL : TY_INT;
     std::stringstream ss(s.substr(s.find(':') + 1)); std::string tok;
     while (ss >> tok) {
         int best = -1;
@@ -47,12 +52,15 @@ bool parse_hist(const std::string &s, Config &c, std::vector<Op> &h) {
 template<typename T> int val(const T &x);
 template<> int val<int>(const int &x) { return x; }
 template<> int val<Tracked>(const Tracked &x) { return x.value(); }
+template<> int val<Cell>(const Cell &x) { return x.weight == (x.id == -1 ? 1.5f : 2.5f) ? x.id : -777; }      // both members must be what a constructor leaves
 
 int g_label;
 
 template<typename T> struct Sys {
     Config cfg;
-    static constexpr bool tracked = std::is_class_v<T>;
+    static constexpr bool tracked = std::is_same_v<T, Tracked>;
+    static constexpr int type_id = tracked ? TY_TRACKED : std::is_class_v<T> ? TY_CELL : TY_INT;
+    static constexpr int defval = tracked ? 0 : std::is_class_v<T> ? -1 : UNKNOWN;      // value of a default-constructed element (arithmetic types are left uninitialised)
     typedef std::vector<int> M;
 
     void bad(const std::string &sig, const std::string &msg) { violation(sig, msg); }
@@ -96,7 +104,7 @@ template<typename T> struct Sys {
             if (n == 2) return new Array<T>{T(labels[0]), T(labels[1])};
             if (n == 3) return new Array<T>{T(labels[0]), T(labels[1]), T(labels[2])};
             return new Array<T>{T(labels[0]), T(labels[1]), T(labels[2]), T(labels[3])};
-        case K_SIZE: m.assign(n, tracked ? 0 : UNKNOWN); return new Array<T>((size_t)n);
+        case K_SIZE: m.assign(n, defval); return new Array<T>((size_t)n);
         case K_FILL: { int l = g_label++; m.assign(n, l); return new Array<T>((size_t)n, T(l)); }
         case K_DEFAULT: return new Array<T>();
         case K_ADOPT: {
@@ -126,7 +134,7 @@ template<typename T> struct Sys {
         case CAB: a = b; ma = mb; if (check && !ma.empty() && a.array() == b.array()) bad("model:shallow-copy", "copy assignment shares storage"); break;
         case MAB: a = std::move(b); std::swap(ma, mb); break;       // documented as swap-based: B receives A's old contents
         case SW: a.swap(b); std::swap(ma, mb); break;
-        case RS: a.resize((size_t)o.arg); ma.resize((size_t)o.arg, tracked ? 0 : UNKNOWN); break;
+        case RS: a.resize((size_t)o.arg); ma.resize((size_t)o.arg, defval); break;
         case RV: { int l = g_label++; a.resize((size_t)o.arg, T(l)); ma.resize((size_t)o.arg, l); break; }
         case WR: { int l = g_label++; a[(size_t)o.arg] = T(l); ma[(size_t)o.arg] = l; break; }
         case SELF: { Array<T> &self = a; a = self; break; }
@@ -148,7 +156,7 @@ template<typename T> struct Sys {
             for (auto &p : h) apply(*a, ma, b, mb, p, false);
             if (o) apply(*a, ma, b, mb, *o, true);
             check_all(*a, ma, b, mb);
-            key = fmt("%d|%zu|%zu|%d|%d", (int)tracked, a->m_size, b.m_size, a->m_array == nullptr, b.m_array == nullptr);
+            key = fmt("%d|%zu|%zu|%d|%d", type_id, a->m_size, b.m_size, a->m_array == nullptr, b.m_array == nullptr);
             for (int v : ma) key += v == UNKNOWN ? 'u' : 'k';
             ma_out = ma;
         }
@@ -175,7 +183,7 @@ template<typename T> void bfs(int maxlen, std::set<std::string> &seen, Stats &st
     auto alpha = alphabet(maxlen);
     for (int ctor = 0; ctor < NCTORS; ctor++) for (int len = 0; len <= maxlen; len++) {
         if (ctor == K_DEFAULT && len > 0) continue;
-        Sys<T> sys; sys.cfg = Config{ctor, len, Sys<T>::tracked};
+        Sys<T> sys; sys.cfg = Config{ctor, len, Sys<T>::type_id};
         std::deque<std::vector<Op>> frontier;
         typename Sys<T>::M m;
         mark(hist_str(sys.cfg, {}));
@@ -203,7 +211,7 @@ template<typename T> void bfs(int maxlen, std::set<std::string> &seen, Stats &st
 template<typename T> void enumerate(int maxlen, int depth, Stats &st) {
     auto alpha = alphabet(maxlen);
     for (int ctor : {K_PTR, K_SIZE, K_ADOPT}) for (int len : {0, 2}) {
-        Sys<T> sys; sys.cfg = Config{ctor, len, Sys<T>::tracked};
+        Sys<T> sys; sys.cfg = Config{ctor, len, Sys<T>::type_id};
         std::vector<std::vector<Op>> level{{}};
         for (int d = 0; d < depth; d++) {
             std::vector<std::vector<Op>> next;
@@ -228,12 +236,14 @@ void explore() {
     std::set<std::string> seen; Stats st;
     bfs<int>(maxlen, seen, st);
     bfs<Tracked>(maxlen, seen, st);
+    bfs<Cell>(maxlen, seen, st);
     uint64_t bt = st.transitions, bs = st.states;
     int depth = thorough() ? 4 : 3;
     enumerate<int>(2, depth, st);
     enumerate<Tracked>(2, depth, st);
+    enumerate<Cell>(2, depth, st);
     shm->validated = st.transitions;
-    sx::detail(fmt("breadth-first search to fixpoint from every construction path x length 0..%d for int and for a lifetime-tracked class type: %llu states, %llu transitions; plus every history to depth %d (lengths <= 2) without deduplication: %llu more transitions",
+    sx::detail(fmt("breadth-first search to fixpoint from every construction path x length 0..%d for int, a lifetime-tracked class type and a trivially copyable class with member initialisers (default construction observable): %llu states, %llu transitions; plus every history to depth %d (lengths <= 2) without deduplication: %llu more transitions",
                maxlen, (unsigned long long)bs, (unsigned long long)bt, depth, (unsigned long long)(st.transitions - bt)));
 }
 
@@ -246,7 +256,7 @@ void replay(const std::string &hist) {
         Op last = h.back(); std::vector<Op> pre(h.begin(), h.end() - 1);
         sys.step(pre, &last, m);
     };
-    if (c.tracked) go(Sys<Tracked>{}); else go(Sys<int>{});
+    if (c.type == TY_TRACKED) go(Sys<Tracked>{}); else if (c.type == TY_CELL) go(Sys<Cell>{}); else go(Sys<int>{});
 }
 }  // namespace
 
@@ -255,7 +265,7 @@ int main(int argc, char **argv) {
     h.name = "array";
     h.rule = "explicit-state search: a state is (construction path, operation history) replayed on fresh real Arrays A (under test) and B (partner for assignment/swap), keyed by the implementation's sizes and pointers; "
              "breadth-first to fixpoint from every construction path (pointer+length copy, initializer list, size, size+fill, default, adopting malloc'ed storage) x every length, with every operation (copy-construct + write-through test, "
-             "move round trip, copy-/move-assign from B, swap, resize(n), resize(n,v), element write, self-assignment, assignment from an empty array) applied in every state; element type int and a lifetime-tracked class type; "
+             "move round trip, copy-/move-assign from B, swap, resize(n), resize(n,v), element write, self-assignment, assignment from an empty array) applied in every state; element types int, a lifetime-tracked class and a trivially copyable class with member initialisers; "
              "after every transition contents, sizes, iteration and the set of live element objects are compared with std::vector models; non-trivial = a non-empty array is involved";
     h.assumptions = {"element values do not influence Array's control flow (fresh labels are used)", "values of arithmetic elements that were never written are not read (Array leaves them indeterminate)",
                      "adoption (copy=false) is exercised with malloc'ed storage holding constructed elements only", "lengths up to the stated bound"};
